@@ -618,8 +618,19 @@ def exact_num(x):
     return isinstance(x, (int, F)) and not isinstance(x, bool)
 
 
+def canon(w, x):
+    """a returned / received object up to what the property observes: type, magnitude type and value, units"""
+    if isinstance(x, w.ureg.Quantity):
+        return ("Quantity", type(x.magnitude).__name__, x.magnitude, tuple(sorted((k, F(v)) for k, v in x._units.items())))
+    if isinstance(x, (tuple, list)):
+        return (type(x).__name__, tuple(canon(w, y) for y in x))
+    return (type(x).__name__, x)
+
+
 def run_wraps(w, plan, quirks):
-    """returns (coq case term or None, list of oracle failures (key, desc))"""
+    """returns (list of coq case terms, list of oracle failures (key, desc)).  ONE decorator object
+    serves the whole plan: the wrapper is called twice, the decorator is applied to a second and
+    further functions (other deliveries): no use may differ from the first"""
     ureg = w.ureg
     fails = []
     names = plan["names"]
@@ -641,8 +652,10 @@ def run_wraps(w, plan, quirks):
     w.clear()
     decor_err = call_err = None
     out = None
+    decorator = None
     try:
-        wrapped = ureg.wraps(ret_arg, args_arg, plan["strict"])(f)
+        decorator = ureg.wraps(ret_arg, args_arg, plan["strict"])
+        wrapped = decorator(f)
     except Exception as e:                      # noqa: BLE001
         decor_err = e
     if decor_err is None:
@@ -654,20 +667,60 @@ def run_wraps(w, plan, quirks):
     if len(rec) > 1:
         fails.append(("called-twice", "the wrapped function was called more than once"))
 
+    # ---- later uses of the same wrapper / the same decorator object
+    def outcome(err, seen_, out_):
+        return ("raised", w.errclass(err), None if seen_ is None else canon(w, seen_)) if err is not None \
+            else ("returned", canon(w, seen_), canon(w, out_))
+
+    def show(o_):
+        return f"{o_[0]} {o_[1]!r}" if o_[0] == "raised" else f"returned {o_[2]!r}"
+    first = outcome(call_err, seen, out) if decor_err is None else None
+    later = []                                   # (call_err, seen, out) of the later uses, for K
+    if decor_err is None:
+        for use in ("second call of the same wrapper", "third call of the same wrapper",
+                    "first call of a second function decorated by the same decorator object"):
+            rec_u = rec
+            target = wrapped
+            if use.startswith("first call of a second"):
+                rec_u = []
+                target = decorator(make_func(names, defaults, result, rec_u, w.clear))
+            del rec[:]
+            w.clear()
+            err_u = out_u = None
+            try:
+                out_u = target(*pos, **dict(kw))
+            except Exception as e:              # noqa: BLE001
+                err_u = e
+            seen_u = list(rec_u[0]) if rec_u else None
+            later.append((err_u, seen_u, out_u))
+            o_u = outcome(err_u, seen_u, out_u)
+            if o_u != first:
+                kind = "repeat-call-differs" if "same wrapper" in use else "decorator-reuse-differs"
+                what = "return" if (o_u[0] == first[0] == "returned" and o_u[1] == first[1]) else "outcome"
+                fails.append((f"{kind}:{what}",
+                              f"{use}, same arguments: {show(o_u)}; the first call: {show(first)}"))
+
     # ---- Coq case
     fres = ("(FTuple " + coq_list([coq_val(w, x) for x in res_vals]) + ")") if plan["result"]["tuple"] \
         else f"(FScalar {coq_val(w, res_vals[0])})"
     rs = [coq_retspec_entry(w, s, o) for s, o in zip(ret["items"], ret_objs)]
     retspec = f"(RScalar {rs[0]})" if ret["container"] is None else f"(RTuple {coq_list(rs)})"
-    if decor_err is not None:
-        o = f"(WDecorErr {w.errclass(decor_err)})"
-    elif call_err is not None:
-        o = f"(WCallErr {w.errclass(call_err)} {coq_opt(None if seen is None else coq_list([coq_pobj(w, x) for x in seen]))})"
-    else:
-        o = f"(WDone {coq_list([coq_pobj(w, x) for x in seen])} {coq_pobj(w, out)})"
-    term = (f"KWraps (Quirks {coq_bool(quirks[0])} {coq_bool(quirks[1])}) {coq_bool(plan['strict'])} "
-            f"{coq_list([coq_spec(w, s, o_) for s, o_ in zip(plan['specs'], spec_objs)])} {retspec} "
-            f"{coq_params(w, names, defaults)} {fres} {coq_list([coq_val(w, x) for x in pos])} {coq_kw(w, kw)} {o}")
+    def kterm(cerr, seen_, out_):
+        if decor_err is not None:
+            o = f"(WDecorErr {w.errclass(decor_err)})"
+        elif cerr is not None:
+            o = f"(WCallErr {w.errclass(cerr)} {coq_opt(None if seen_ is None else coq_list([coq_pobj(w, x) for x in seen_]))})"
+        else:
+            o = f"(WDone {coq_list([coq_pobj(w, x) for x in seen_])} {coq_pobj(w, out_)})"
+        return (f"KWraps (Quirks {coq_bool(quirks[0])} {coq_bool(quirks[1])}) {coq_bool(plan['strict'])} "
+                f"{coq_list([coq_spec(w, s, o_) for s, o_ in zip(plan['specs'], spec_objs)])} {retspec} "
+                f"{coq_params(w, names, defaults)} {fres} {coq_list([coq_val(w, x) for x in pos])} {coq_kw(w, kw)} {o}")
+    term = [kterm(call_err, seen, out)]
+    # the model keeps no state between calls (C17_repeated_calls): a later use that is observed to
+    # differ from the first is also put before the model
+    for lu in later:
+        if outcome(*lu) != first:
+            term.append(kterm(*lu))
 
     # ---- property oracles (on pint alone)
     # arity
@@ -816,11 +869,11 @@ def run_wraps(w, plan, quirks):
                 else:
                     fails.append((f"wrong-magnitude:{k}", f"parameter {names[i]}: received {srepr(r)}, expected {srepr(e)}"))
     # returned object
-    if ret_expected is not None:
-        outs = list(out) if ret["container"] is not None else [out]
+    def ret_ok(out_):
+        if ret["container"] is not None and type(out_).__name__ != ret["container"]:
+            return False
+        outs = list(out_) if ret["container"] is not None else [out_]
         ok = len(outs) == len(ret_expected)
-        if ret["container"] is not None and type(out).__name__ != ret["container"]:
-            ok = False
         if ok:
             for o_, (how, e) in zip(outs, ret_expected):
                 if how == "none":
@@ -830,22 +883,31 @@ def run_wraps(w, plan, quirks):
                 else:
                     ok = ok and isinstance(o_, ureg.Quantity) and exact_num(o_.magnitude) and o_.magnitude == e[0] \
                         and {k_: F(v_) for k_, v_ in o_._units.items()} == {k_: F(v_) for k_, v_ in e[1]._units.items()}
-        if not ok:
+        return ok
+    if ret_expected is not None:
+        if not ret_ok(out):
             fails.append(("ret-wrong", f"returned {srepr(out)}"))
+        for (err_u, _, out_u), use in zip(later, ("second call", "third call", "second function, same decorator object")):
+            if err_u is None and not ret_ok(out_u):
+                fails.append(("ret-wrong:later-use", f"{use}: returned {srepr(out_u)}; the first call returned {srepr(out)}"))
     # binding independence: same effective values, other deliveries
     for mode in ("positional", "keyword"):
         rec2 = []
         f2 = make_func(names, defaults, result, rec2, w.clear)
         w.clear()
         try:
-            w2 = ureg.wraps(ret_arg, args_arg, plan["strict"])(f2)
+            w2 = decorator(f2)                    # the same decorator object again
             if mode == "positional":
-                w2(*effv)
+                out2 = w2(*effv)
             else:
-                w2(**dict(zip(names, effv)))
+                out2 = w2(**dict(zip(names, effv)))
         except Exception as e:                  # noqa: BLE001
             fails.append((f"binding-dependent:{mode}", f"{mode} delivery raised {srepr(e)}"))
             continue
+        if ret_expected is not None and not ret_ok(out2):
+            fails.append((f"ret-wrong:{mode}-delivery",
+                          f"{mode} delivery through the same decorator object returned {srepr(out2)}; "
+                          f"the first call returned {srepr(out)}"))
         if len(rec2) != 1 or len(rec2[0]) != n:
             fails.append((f"binding-dependent:{mode}", f"{mode} delivery: received {srepr(rec2)} vs {srepr(seen)}"))
             continue
@@ -1102,7 +1164,8 @@ def run(ck):
     cases, fails_all = [], []
 
     def add(term, plan, fails):
-        cases.append((term, plan))
+        for t_ in (term if isinstance(term, list) else [term]):
+            cases.append((t_, plan))
         for key, desc in fails:
             fails_all.append((key, desc, plan))
 
@@ -1122,7 +1185,7 @@ def run(ck):
         ck.case(key=("wraps", json.dumps(plan, sort_keys=True)), nontrivial=nontriv,
                 sample=plan if len(ck.samples) < 4 and nontriv else None)
         ck.count("wraps malformed" if malformed else "wraps valid")
-        o = term.rsplit("(W", 1)[1].split(" ", 1)[0]
+        o = term[0].rsplit("(W", 1)[1].split(" ", 1)[0]
         ck.count("wraps outcome W" + o.rstrip(")"))
         for k, _ in classify(plan["specs"]):
             ck.count("spec " + k)
